@@ -569,7 +569,7 @@ func valuesLength(c *Ctx, ct *types.Named, fn *ssa.Function, sizeTerm *Term, dep
 	if len(rets) != 1 {
 		return Undecided, "more than one return"
 	}
-	st := &pstate{b: &gcBuilder{p: p, e: c.E(), fn: fn, cutIdx: map[*ssa.BasicBlock]int{}, out: &GCNF{Fn: fn}}, env: map[ssa.Value]*Term{}, onPath: map[*ssa.BasicBlock]bool{}, inl: true}
+	st := &pstate{b: &gcBuilder{p: p, e: c.E(), fn: fn, cutIdx: map[string]int{}, out: &GCNF{Fn: fn}}, env: map[ssa.Value]*Term{}, onPath: map[string]bool{}, inl: true}
 	switch x := rets[0].(type) {
 	case *ssa.MakeSlice:
 		lt := stripEpochs(st.term(x.Len))
